@@ -42,6 +42,9 @@ const (
 	fromServer = iota
 	fromForeignPort
 	fromForeignIP
+	// fromServerBadSeal: sent from the server's socket, but the packet does not verify in the
+	// (sealing) client's unpacker, so the resolver never sees a DNS message: counts for nothing.
+	fromServerBadSeal
 )
 
 type udpDatagram struct {
@@ -53,6 +56,8 @@ type udpDatagram struct {
 type udpLookup struct {
 	Datagrams      []udpDatagram
 	WaitRetransmit bool // answer only once a retransmitted query has arrived (about 2 s)
+	LostQueries    int  // the first k queries of each family are lost on the way to the upstream (2 s each)
+	LostReplies    int  // the upstream's first k rounds of replies are lost on the way back (2 s each)
 	Silent         bool // never answer over UDP (thorough only: 20 s)
 	MustSucceed    bool // the TCP side is healthy and complete: whatever UDP does, the lookup has to succeed
 	OpenEnded      bool // the datagrams leave a query unanswered without truncation (thorough only: 20 s)
@@ -61,8 +66,21 @@ type udpLookup struct {
 
 type udpPlan struct {
 	UseTCP bool
-	Name   string // name looked up ("" = udp.verif.test)
-	L      [2]udpLookup
+	// Mutating: the resolver's UDP client is the harness sealing client (udpcodec_test.go), whose
+	// packer rewrites the message bytes in place; otherwise the pass-through direct client.
+	Mutating bool
+	Name     string // name looked up ("" = udp.verif.test)
+	L        [2]udpLookup
+}
+
+// answerRound is the number of queries per family the upstream has to see before its replies
+// reach the resolver (1 = the first query is answered).
+func (l *udpLookup) answerRound() int {
+	r := 1 + l.LostQueries + l.LostReplies
+	if l.WaitRetransmit {
+		r++
+	}
+	return r
 }
 
 // usable reports whether a datagram item is an acceptable final UDP response.
@@ -74,23 +92,25 @@ type udpServer struct {
 	ap             netip.AddrPort
 	name           string
 	scripts        []udpLookup
+	sealed         bool // the resolver uses the sealing client: datagrams are sealed packets
 
-	mu       sync.Mutex
-	ids      map[int]uint16
-	ports    []uint16      // source ports in order of first appearance = lookups that reached upstream
-	queries  []map[int]int // per lookup: family -> number of queries seen
-	played   []bool
-	badQ     string
-	oversize int
-	syncCh   chan struct{}
-	done     chan struct{}
+	mu         sync.Mutex
+	ids        map[int]uint16
+	ports      []uint16      // source ports in order of first appearance = lookups that reached upstream
+	queries    []map[int]int // per lookup: family -> number of queries seen
+	played     []bool
+	badQ       string
+	oversize   int
+	nDatagrams int
+	syncCh     chan struct{}
+	done       chan struct{}
 }
 
 func listenLoopback(ip netip.Addr, port uint16) (*net.UDPConn, error) {
 	return net.ListenUDP("udp4", net.UDPAddrFromAddrPort(netip.AddrPortFrom(ip, port)))
 }
 
-func newUDPServer(name string, scripts []udpLookup) (*udpServer, error) {
+func newUDPServer(name string, scripts []udpLookup, sealed bool) (*udpServer, error) {
 	lo1 := netip.AddrFrom4([4]byte{127, 0, 0, 1})
 	lo2 := netip.AddrFrom4([4]byte{127, 0, 0, 2})
 	var lastErr error
@@ -112,7 +132,7 @@ func newUDPServer(name string, scripts []udpLookup) (*udpServer, error) {
 			fip.Close()
 			return nil, err
 		}
-		s := &udpServer{pc: pc, fport: fport, fip: fip, ap: netip.AddrPortFrom(lo1, ap.Port()), name: name, scripts: scripts,
+		s := &udpServer{pc: pc, fport: fport, fip: fip, ap: netip.AddrPortFrom(lo1, ap.Port()), name: name, scripts: scripts, sealed: sealed,
 			ids: map[int]uint16{}, syncCh: make(chan struct{}, 4), done: make(chan struct{})}
 		go s.run()
 		return s, nil
@@ -172,10 +192,23 @@ func (s *udpServer) run() {
 			s.syncCh <- struct{}{}
 			continue
 		}
-		q, err := parseQuery(buf[:n])
+		msg := buf[:n]
+		if s.sealed {
+			ms, ml, err := openInPlace(buf, 0, n)
+			if err != nil {
+				s.mu.Lock()
+				s.nDatagrams++
+				s.badQ = fmt.Sprintf("datagram #%d from the resolver does not decode at the far end of its UDP client: %v", s.nDatagrams, err)
+				s.mu.Unlock()
+				continue
+			}
+			msg = buf[ms : ms+ml]
+		}
+		q, err := parseQuery(msg)
 		s.mu.Lock()
+		s.nDatagrams++
 		if err != nil || !queryOK(&q, s.name) {
-			s.badQ = fmt.Sprintf("query=%+v err=%v raw=%x", q, err, buf[:n])
+			s.badQ = fmt.Sprintf("datagram #%d query=%+v err=%v raw=%x", s.nDatagrams, q, err, msg)
 			s.mu.Unlock()
 			continue
 		}
@@ -201,7 +234,7 @@ func (s *udpServer) run() {
 		var play *udpLookup
 		if !s.played[k] && k < len(s.scripts) && s.queries[k][4] > 0 && s.queries[k][6] > 0 {
 			sc := &s.scripts[k]
-			if !sc.Silent && (!sc.WaitRetransmit || s.queries[k][4] > 1 || s.queries[k][6] > 1) {
+			if r := sc.answerRound(); !sc.Silent && s.queries[k][4] >= r && s.queries[k][6] >= r {
 				s.played[k] = true
 				play = sc
 			}
@@ -219,6 +252,12 @@ func (s *udpServer) run() {
 				if d.It.Kind != kZeroLen {
 					b = wire(&d.It, s.name, ids)
 				}
+				if s.sealed {
+					b = seal(b)
+					if d.From == fromServerBadSeal {
+						b[len(b)-1] ^= 0x5a
+					}
+				}
 				sock := s.pc
 				switch d.From {
 				case fromForeignPort:
@@ -226,7 +265,7 @@ func (s *udpServer) run() {
 				case fromForeignIP:
 					sock = s.fip
 				}
-				if len(b) > 1232 { // would not fit the size the resolver advertises: generator error
+				if len(b) > 1232+sealFront+sealRear { // would not fit the size the resolver advertises: generator error
 					s.mu.Lock()
 					s.oversize = len(b)
 					s.mu.Unlock()
@@ -307,7 +346,7 @@ func realtimeScript(s lookupScript) lookupScript {
 	return s
 }
 
-func genUDPLookup(rt *rapid.T, ag *addrGen) udpLookup {
+func genUDPLookup(rt *rapid.T, ag *addrGen, mutating bool) udpLookup {
 	var l udpLookup
 	n := rapid.IntRange(0, 7).Draw(rt, "nDatagrams")
 	spoofFirst := rapid.Bool().Draw(rt, "spoofFirst")
@@ -318,7 +357,13 @@ func genUDPLookup(rt *rapid.T, ag *addrGen) udpLookup {
 		if i == 0 && spoofFirst {
 			k = 7
 		}
+		if mutating && k == 19 {
+			k = 20
+		}
 		switch {
+		case k == 20: // comes from the server's socket but does not verify in the client's unpacker
+			d.From = fromServerBadSeal
+			d.It = item{Kind: kResp, Fam: fam, Msg: genUDPMsg(rt, fam, ag, true)}
 		case k < 7: // acceptable answer from the server
 			d.It = item{Kind: kResp, Fam: fam, Msg: genUDPMsg(rt, fam, ag, false)}
 		case k < 12: // spoofed: right ID, foreign source, poison addresses
@@ -377,7 +422,17 @@ func genUDPLookup(rt *rapid.T, ag *addrGen) udpLookup {
 			}
 		}
 	}
-	l.WaitRetransmit = rapid.IntRange(0, 19).Draw(rt, "waitRetransmit") == 13
+	// loss plan: the first datagram(s) of the transaction are lost, a retransmission matters
+	if rapid.IntRange(0, 19).Draw(rt, "loss") == 13 {
+		switch rapid.IntRange(0, 4).Draw(rt, "lossKind") {
+		case 0, 1:
+			l.LostQueries = 1
+		case 2, 3:
+			l.LostReplies = 1
+		default:
+			l.LostQueries, l.LostReplies = 1, 1
+		}
+	}
 	s, _ := genLookupScript(rt, ag)
 	// "TC=1 over UDP, then the large answer over TCP": when the server truncates, the TCP side
 	// usually carries an answer that really does not fit a datagram (up to the 65535-byte limit).
@@ -496,12 +551,12 @@ func evalUDPVariants(name string, l *udpLookup, useTCP bool, obs []*connObs, t0,
 }
 
 var recUDP = ev.New("C17", "udp-loopback",
-	"rapid, real time: name looked up as in the histories (everyday, or total length 1..253 with 63-byte / 1-byte / mixed labels); resolver with direct UDP client towards a kernel socket on 127.0.0.1 plus (usually) the in-memory TCP upstream as fallback; per lookup 0..6 datagrams in a "+
+	"rapid, real time: name looked up as in the histories (everyday, or total length 1..253 with 63-byte / 1-byte / mixed labels); resolver with the pass-through direct UDP client or (half of the cases) a harness sealing client whose packer rewrites the message bytes in place (per-packet nonce in the front headroom, XOR keystream, tag in the rear headroom; the upstream undoes it, and may send a packet that does not verify), loss plans in 1/20 of the cases (first query of each family lost / first round of replies lost / both) plus two fixed such cases with the sealing client; direct UDP client towards a kernel socket on 127.0.0.1 plus (usually) the in-memory TCP upstream as fallback; per lookup 0..6 datagrams in a "+
 		"drawn order: acceptable answers from the server, spoofed answers with the right IDs from a foreign port or a foreign IP (127.0.0.2, same port) carrying poison addresses, "+
 		"truncated answers (then the TCP side usually carries a large answer padded to 512..65535 bytes), foreign-ID/garbage/QR=0/RA=0/short/cut/empty datagrams from the server; optionally the server answers only a retransmitted query; then a second lookup of the "+
 		"same name (cache hit expected for TTL>=3600, fresh answers expected after a failure). Non-trivial: a spoofed datagram arrives before the lookup is complete AND (TCP fallback "+
 		"happened or an unusable server datagram was sent); distinct key = datagram class string + outcome").
-	Require("name-length>=243", "failure-is-ErrLookup", "tc-udp-then-tcp-answer>1234B", "spoofed-before-complete", "tcp-fallback", "truncated-udp", "udp-complete", "second-lookup-cache-hit", "second-lookup-after-failure", "foreign-ip", "foreign-port")
+	Require("udp-client-mutates-payload", "first-datagram-lost/answered-on-retransmission", "retransmission-through-mutating-client", "name-length>=243", "failure-is-ErrLookup", "tc-udp-then-tcp-answer>1234B", "spoofed-before-complete", "tcp-fallback", "truncated-udp", "udp-complete", "second-lookup-cache-hit", "second-lookup-after-failure", "foreign-ip", "foreign-port")
 
 func runUDPPlan(t *testing.T, p *udpPlan) (viol string, labels map[string]bool, key string) {
 	labels = map[string]bool{}
@@ -512,7 +567,7 @@ func runUDPPlan(t *testing.T, p *udpPlan) (viol string, labels map[string]bool, 
 	for _, l := range nameLabels(name) {
 		labels[l] = true
 	}
-	srv, err := newUDPServer(name, p.L[:])
+	srv, err := newUDPServer(name, p.L[:], p.Mutating)
 	if err != nil {
 		return harnessTrouble + "cannot bind loopback sockets: " + err.Error(), labels, ""
 	}
@@ -525,6 +580,10 @@ func runUDPPlan(t *testing.T, p *udpPlan) (viol string, labels map[string]bool, 
 		tcpMap["t"] = up
 	}
 	udpMap := map[string]zerocopy.UDPClient{"u": direct.NewDirectUDPClient("direct", "ip", 1500, conn.DefaultUDPClientListenConfig)}
+	if p.Mutating {
+		udpMap["u"] = sealingUDPClient{}
+		labels["udp-client-mutates-payload"] = true
+	}
 	sr, err := rc.NewSimpleResolver(tcpMap, udpMap, zap.NewNop())
 	if err != nil {
 		return "SIG=C17/harness-resolver-construction " + err.Error(), labels, ""
@@ -545,6 +604,9 @@ func runUDPPlan(t *testing.T, p *udpPlan) (viol string, labels map[string]bool, 
 			case fromForeignIP:
 				c = "i"
 				labels["foreign-ip"] = true
+			case fromServerBadSeal:
+				c = "b"
+				labels["undecodable-packet-from-server"] = true
 			}
 			kind := d.It.Kind
 			if kind == kResp && d.It.Msg.TC {
@@ -635,7 +697,7 @@ func runUDPPlan(t *testing.T, p *udpPlan) (viol string, labels map[string]bool, 
 			for i := range l.Datagrams {
 				d := &l.Datagrams[i]
 				if d.From != fromServer {
-					if d.It.Kind == kResp && !(acc[4] && acc[6]) {
+					if d.From != fromServerBadSeal && d.It.Kind == kResp && !(acc[4] && acc[6]) {
 						labels["spoofed-before-complete"] = true
 					}
 					continue
@@ -647,11 +709,28 @@ func runUDPPlan(t *testing.T, p *udpPlan) (viol string, labels map[string]bool, 
 				acc[d.It.Fam] = true
 			}
 		}
-		if l.WaitRetransmit || l.Silent {
+		if r := l.answerRound(); r > 1 && !l.Silent {
+			// The replies only got through in round r: every earlier datagram was lost, so the
+			// retransmissions are what completes the lookup, and all of them decoded to the query.
+			if nq[4] < r || nq[6] < r {
+				return "SIG=C17/udp-no-retransmission " + ctxs(), labels, ""
+			}
+			labels["first-datagram-lost/answered-on-retransmission"] = true
+			if l.LostReplies > 0 {
+				labels["reply-lost"] = true
+			}
+			if l.LostQueries > 0 || l.WaitRetransmit {
+				labels["query-lost"] = true
+			}
+			if p.Mutating {
+				labels["retransmission-through-mutating-client"] = true
+			}
+		}
+		if l.Silent {
 			if nq[4] < 2 && nq[6] < 2 {
 				return "SIG=C17/udp-no-retransmission " + ctxs(), labels, ""
 			}
-			labels["answered-on-retransmit"] = true
+			labels["retransmitted-while-silent"] = true
 		}
 		variants := evalUDPVariants(name, l, p.UseTCP, obs, t0, t1)
 		matched := false
@@ -722,22 +801,26 @@ func describeScript(s *lookupScript) string {
 func TestResolverUDP(t *testing.T) {
 	// One "UDP unanswered for the whole UDP wait, TCP healthy" case (about 20 s of real time) runs
 	// next to the generated scenarios so that the quick tier has it too.
-	silent := make(chan string, 1)
+	fixed := make(chan string, 2)
 	go func() {
 		v, _ := runSilence(t, silenceScens[0])
-		silent <- v
+		fixed <- v
 	}()
+	// ... and so do the fixed "first datagrams lost, payload-rewriting client" cases (2 s + 4 s).
+	go func() { fixed <- runFixedLossScenarios(t) }()
 	defer func() {
 		if t.Failed() {
 			return
 		}
-		if v := <-silent; v != "" && !strings.HasPrefix(v, harnessTrouble) {
-			t.Fatalf("%s", v)
+		for range 2 {
+			if v := <-fixed; v != "" && !strings.HasPrefix(v, harnessTrouble) {
+				t.Fatalf("%s", v)
+			}
 		}
 	}()
 	rapid.Check(t, func(rt *rapid.T) {
-		p := &udpPlan{UseTCP: rapid.IntRange(0, 5).Draw(rt, "useTCP") != 0, Name: genName(rt, 20)}
-		p.L[0] = genUDPLookup(rt, &addrGen{scope: 1})
+		p := &udpPlan{UseTCP: rapid.IntRange(0, 5).Draw(rt, "useTCP") != 0, Name: genName(rt, 20), Mutating: rapid.Bool().Draw(rt, "mutatingClient")}
+		p.L[0] = genUDPLookup(rt, &addrGen{scope: 1}, p.Mutating)
 		p.L[1] = goodUDPLookup(&addrGen{scope: 2})
 		j := writeJournal("udp", p)
 		viol, labels, key := runUDPPlan(t, p)
@@ -801,6 +884,7 @@ func runSilence(t *testing.T, sc silenceScen) (viol string, elapsed time.Duratio
 	switch sc.name { // the longest legal names, too
 	case "all-silent-tcp-fallback":
 		p.Name = makeName(253, 0, 17, 's')
+		p.Mutating = true // all ten transmissions of each query go through the payload-rewriting client
 	case "all-silent-tcp-fallback-64k":
 		p.Name = makeName(253, 1, 18, 't')
 	}
@@ -870,4 +954,37 @@ func TestReplayUDP(t *testing.T) {
 	if viol, _, _ := runUDPPlan(t, &plan); viol != "" && !strings.HasPrefix(viol, harnessTrouble) {
 		t.Fatal(viol)
 	}
+}
+
+// runFixedLossScenarios: resolver with the sealing (payload-rewriting) UDP client; the first query
+// of each family is lost, resp. the first query and the first round of replies; the lookup must
+// be completed over UDP by the retransmission, every datagram the upstream receives must decode
+// to the query, and no TCP connection may be needed. Always part of TestResolverUDP.
+func runFixedLossScenarios(t *testing.T) string {
+	for i, lost := range [][2]int{{1, 0}, {1, 1}} {
+		p := &udpPlan{UseTCP: true, Mutating: true, Name: makeName(250+i, i, 21, 'l')}
+		p.L[0] = goodUDPLookup(&addrGen{scope: 3})
+		p.L[0].LostQueries, p.L[0].LostReplies = lost[0], lost[1]
+		p.L[0].TCP = goodScript(&addrGen{scope: 4}, 3600)
+		p.L[1] = goodUDPLookup(&addrGen{scope: 5})
+		viol, labels, key := runUDPPlan(t, p)
+		if strings.HasPrefix(viol, sigSlow) {
+			viol, labels, key = runUDPPlan(t, p) // a missed real-time bound is retried once
+		}
+		if strings.HasPrefix(viol, harnessTrouble) {
+			continue
+		}
+		if viol != "" {
+			return viol
+		}
+		if !labels["udp-complete"] || labels["tcp-fallback"] {
+			return fmt.Sprintf("SIG=C17/udp-retransmission-answered-but-lookup-not-completed-over-udp lost(queries,replies)=%v %s", lost, key)
+		}
+		ls := []string{"fixed-loss-scenario"}
+		for l := range labels {
+			ls = append(ls, l)
+		}
+		recUDP.Case(fmt.Sprintf("fixed-loss-%d|%s", i, key), true, ls...)
+	}
+	return ""
 }
